@@ -194,3 +194,97 @@ Proof.
   rewrite project_app, (run_obj_app _ _ _ _ H) in Hs. unfold project in Hs. cbn [filter obj] in Hs.
   rewrite Z.eqb_refl in Hs. cbn in Hs. discriminate.
 Qed.
+
+(* ---------- 4. n-ary interleavings ---------- *)
+
+(* t is an interleaving of the traces ls: every step takes the head of one of them *)
+Inductive interleave : list (list lc) -> list lc -> Prop :=
+| il_nil : forall ls, Forall (fun l => l = []) ls -> interleave ls []
+| il_cons : forall pre e a post t, interleave (pre ++ a :: post) t -> interleave (pre ++ (e :: a) :: post) (e :: t).
+
+Definition pairwise_disjoint (ls : list (list lc)) : Prop := ForallOrdPairs disjoint ls.
+
+Lemma merge_nil_l t : merge [] t t.
+Proof. induction t; constructor; assumption. Qed.
+
+Lemma merge_app a b : merge a b (a ++ b).
+Proof. induction a as [|e a IH]; [apply merge_nil_l|constructor; exact IH]. Qed.
+
+(* an interleaving of l :: ls is a binary merge of l with an interleaving of ls *)
+Lemma interleave_split : forall lls t, interleave lls t -> forall l ls, lls = l :: ls ->
+  exists t', interleave ls t' /\ merge l t' t.
+Proof.
+  induction 1 as [lls Hall|pre e a post t Hil IH]; intros l ls Heq.
+  - subst lls. inversion Hall as [|? ? Hl Hls]; subst. exists []. split; [constructor; exact Hls|constructor].
+  - destruct pre as [|p0 pre'].
+    + cbn [app] in Heq. injection Heq as <- <-.
+      destruct (IH a post eq_refl) as [t' [I M]]. exists t'. split; [exact I|constructor; exact M].
+    + cbn [app] in Heq. injection Heq as <- <-.
+      destruct (IH p0 (pre' ++ a :: post) eq_refl) as [t' [I M]].
+      exists (e :: t'). split; [constructor; exact I|constructor; exact M].
+Qed.
+
+Lemma interleave_In : forall ls t, interleave ls t -> forall x, In x t -> exists l, In l ls /\ In x l.
+Proof.
+  induction 1 as [ls Hall|pre e a post t Hil IH]; intros x Hx; [destruct Hx|].
+  destruct Hx as [<-|Hx].
+  - exists (e :: a). split; [apply in_or_app; right; left; reflexivity|left; reflexivity].
+  - destruct (IH x Hx) as [l [Hl Hxl]]. apply in_app_or in Hl as [Hl|[<-|Hl]].
+    + exists l. split; [apply in_or_app; left; exact Hl|exact Hxl].
+    + exists (e :: a). split; [apply in_or_app; right; left; reflexivity|right; exact Hxl].
+    + exists l. split; [apply in_or_app; right; right; exact Hl|exact Hxl].
+Qed.
+
+Lemma accepted_nil : accepted [].
+Proof. intros o. exists Live. reflexivity. Qed.
+
+Theorem interleaving_safe_n : forall ls t, interleave ls t -> pairwise_disjoint ls -> Forall accepted ls -> accepted t.
+Proof.
+  induction ls as [|l ls IH]; intros t Hil Hd Ha.
+  - inversion Hil as [? ?|pre e a post t0 ? Heq]; subst; [apply accepted_nil|].
+    destruct pre; discriminate.
+  - destruct (interleave_split _ _ Hil l ls eq_refl) as [t' [I M]].
+    inversion Hd as [|? ? Hhead Htail]; subst. inversion Ha as [|? ? Hal Hals]; subst.
+    apply (interleaving_safe l t' t M); [|exact Hal|apply IH; assumption].
+    intros x y Hx Hy. destruct (interleave_In _ _ I y Hy) as [l' [Hl' Hyl']].
+    rewrite Forall_forall in Hhead. exact (Hhead l' Hl' x y Hx Hyl').
+Qed.
+
+(* running the traces one after the other is one of the interleavings *)
+Lemma interleave_concat : forall ls, interleave ls (concat ls).
+Proof.
+  assert (G : forall rest done, Forall (fun l => l = []) done -> interleave (done ++ rest) (concat rest)).
+  { induction rest as [|l rest IHr]; intros done Hd.
+    - rewrite app_nil_r. constructor. exact Hd.
+    - revert done Hd. induction l as [|e l IHl]; intros done Hd.
+      + cbn [concat app]. replace (done ++ [] :: rest) with ((done ++ [[]]) ++ rest) by (rewrite <- app_assoc; reflexivity).
+        apply IHr. apply Forall_app. split; [exact Hd|constructor; [reflexivity|constructor]].
+      + cbn [concat app]. apply (il_cons done e l rest). apply (IHl done Hd). }
+  intros ls. apply (G ls []). constructor.
+Qed.
+
+Lemma disjoint_sym a b : disjoint a b -> disjoint b a.
+Proof. intros H x y Hx Hy E. exact (H y x Hy Hx (eq_sym E)). Qed.
+
+Lemma accepted_app a b : accepted a -> accepted b -> disjoint a b -> accepted (a ++ b).
+Proof. intros Ha Hb D. exact (interleaving_safe a b (a ++ b) (merge_app a b) D Ha Hb). Qed.
+
+(* ---------- 5. a release the pool refuses (the pool is full: no Rec event) ---------- *)
+
+Lemma run_obj_prefix : forall t1 t2 s s', run_obj s (t1 ++ t2) = inl s' -> exists s1, run_obj s t1 = inl s1.
+Proof.
+  induction t1 as [|e t1 IH]; intros t2 s s' H; [eexists; reflexivity|].
+  cbn [app run_obj] in *. destruct (auto_step s e) as [s1|c]; [exact (IH t2 s1 s' H)|discriminate].
+Qed.
+
+(* dropping a Rec event after which its object is not used any more (it was not put back, so nobody can get it
+   from the pool) keeps a trace accepted: every path theorem also covers its variants under a full pool *)
+Theorem refused_release_safe : forall a o b,
+  accepted (a ++ Rec o :: b) -> (forall e, In e b -> obj e <> o) -> accepted (a ++ b).
+Proof.
+  intros a o b H Hb o'. destruct (H o') as [s Hs]. rewrite project_app in *.
+  destruct (Z.eq_dec o o') as [<-|Hne].
+  - rewrite (project_nil_if_absent o b Hb), app_nil_r. exact (run_obj_prefix _ _ _ _ Hs).
+  - replace (project o' (Rec o :: b)) with (project o' b) in Hs; [eauto|].
+    unfold project. cbn [filter obj]. destruct (Z.eqb_spec o o'); [contradiction|reflexivity].
+Qed.
